@@ -144,10 +144,18 @@ pub fn gen_config(cli: bool, big: bool) -> Cfg {
         // RollSum has no "window <= max" rule (BuzHash has, for its init phase): the window simply
         // spans earlier chunks. Other tools may write such archives, bita itself does with a
         // maximum below the default window; library level only
-        if algo == Algo::RollSum && !cli && window >= 2 && t.chance(1, 10) {
-            let max = 1 + t.draw(window as u32 - 1) as usize;
-            let min = min.min(max);
-            return Cfg { algo, window, min, max, bits, avg };
+        if algo == Algo::RollSum && window >= 2 && t.chance(1, 10) {
+            if !cli {
+                let max = 1 + t.draw(window as u32 - 1) as usize;
+                let min = min.min(max);
+                return Cfg { algo, window, min, max, bits, avg };
+            }
+            // the command line wants min <= avg <= max
+            if avg < window {
+                let max = avg + t.draw((window - avg) as u32) as usize;
+                let min = min.min(avg);
+                return Cfg { algo, window, min, max, bits, avg };
+            }
         }
         Cfg { algo, window, min, max, bits, avg }
     })
